@@ -61,6 +61,21 @@ func checkC02(w *World, r *Report) {
 	r.Floor("cycle-path", 2)
 }
 
+// depCheckFn: the dependency check of the scheduler — (graph, stage) → bool, whatever its name.
+func depCheckFn(w *World) *ssa.Function {
+	return w.FuncByRole("taskctl", "checkStatus", func(f *ssa.Function) bool {
+		return recvIs(f, "") && sigHas(f, []string{"scheduler.ExecutionGraph", "scheduler.Stage"}, []string{"bool"})
+	})
+}
+
+// runStageFn: the scheduler method that runs one stage — (*Stage) → error, whatever its name.
+func runStageFn(w *World) *ssa.Function {
+	return w.FuncByRole("taskctl", "(*Scheduler).runStage", func(f *ssa.Function) bool {
+		return recvIs(f, "Scheduler") && f.Signature.Params().Len() == 1 && typeShort(f.Signature.Params().At(0).Type()) == "Stage" &&
+			f.Signature.Results().Len() == 1 && f.Signature.Results().At(0).Type().String() == "error"
+	})
+}
+
 // stageGoroutines: the functions the scheduling function launches with a go statement
 // (closures or methods), with the go instructions.
 func stageGoroutines(s *ssa.Function) (fns []*ssa.Function, gos []*ssa.Go) {
@@ -103,6 +118,10 @@ func launchGate(w *World, r *Report, rule string) {
 	waiting, running := fmt.Sprint(st["Waiting"]), fmt.Sprint(st["Running"])
 	res := w.EnumPaths(s, EnumOpts{MaxPaths: 20000})
 	r.Count("paths", len(res.Paths))
+	depName := ""
+	if dc := depCheckFn(w); dc != nil {
+		depName = FuncName(dc)
+	}
 	nGo := 0
 	bad := ""
 	for _, p := range res.Paths {
@@ -126,7 +145,7 @@ func launchGate(w *World, r *Report, rule string) {
 					if a.Op == "==" && strings.HasSuffix(a.L, ".ReadStatus("+stage+")") && a.R == waiting && prev.Lit.Val {
 						sawWaiting = true
 					}
-					if a.Op == "true" && strings.HasSuffix(a.L, "checkStatus(arg0,"+stage+")") && prev.Lit.Val {
+					if a.Op == "true" && depName != "" && strings.HasSuffix(a.L, depName+"(arg0,"+stage+")") && prev.Lit.Val {
 						depOK = true
 					}
 				}
@@ -166,9 +185,7 @@ func launchGate(w *World, r *Report, rule string) {
 }
 
 func depVerdict(w *World, r *Report, rule string) {
-	cs := w.FuncByRole("taskctl", "checkStatus", func(f *ssa.Function) bool {
-		return recvIs(f, "") && sigHas(f, []string{"scheduler.ExecutionGraph", "scheduler.Stage"}, []string{"bool"})
-	})
+	cs := depCheckFn(w)
 	if cs == nil {
 		r.Undecided(rule, "taskctl.checkStatus", "-", "not found")
 		return
